@@ -23,7 +23,7 @@ RULE = ("operations: a menu of complete compile-and-match operations through the
         "module-level / class-level container, singleton, mutable default argument and function cache of the jasm package; "
         "every operation is applied in every reachable state. Search 2 (stateless): EVERY history of length <= D (D=3 "
         "quick, 4 thorough) by recursive forking, no deduplication, so state the snapshot cannot see is still exercised. "
-        "Oracle: the outcome (value or exception type, and equality of an immediate repetition) of every operation in "
+        "Search 3 (accumulation): for EVERY operation op and k in {2,5,17,40,64} (thorough ..300), the histories op^k followed by EVERY operation - state that only shows after many repetitions (counters, growing containers). Oracle: the outcome (value or exception type, and equality of an immediate repetition) of every operation in "
         "every history equals the outcome of the same operation executed first in a fresh interpreter. Conformance: every "
         "BFS state's shortest history is replayed in a fresh interpreter (no fork server) and must give the same outcomes "
         "and snapshots.")
@@ -47,7 +47,8 @@ def _env():
 
 
 def bounds(tier):
-    return {"depth_stateless": 3 if tier == "quick" else 4, "state_cap": 600, "bfs_time_cap_s": 40 if tier == "quick" else 600}
+    return {"depth_stateless": 3 if tier == "quick" else 4, "state_cap": 600, "bfs_time_cap_s": 40 if tier == "quick" else 600,
+            "accumulate_counts": [2, 5, 17, 40, 64] if tier == "quick" else [2, 5, 17, 40, 64, 128, 300]}
 
 
 def _ops():
@@ -82,6 +83,7 @@ def shards(tier):
     baseline = {n: v["outcome"] for n, v in base.items()}
     sh = [{"kind": "bfs", "baseline": baseline}]
     sh += [{"kind": "tree", "first": n, "baseline": baseline} for n in names]
+    sh += [{"kind": "accum", "op": n, "baseline": baseline} for n in names]
     return sh
 
 
@@ -215,7 +217,37 @@ def run_bfs(shard, tier, h, res, known):
                         "edges_sample": [list(e) for e in edges[:3]]})
 
 
+def run_accum(shard, tier, h, res, known):
+    _, history = _ops()
+    wd = h.path("accum_" + shard["op"])
+    history.prepare_workdir(wd)
+    counts = bounds(tier)["accumulate_counts"]
+    r = subprocess.run([PY, HIST, "accum", wd, shard["op"], ",".join(map(str, counts))], capture_output=True, text=True, env=_env())
+    if r.returncode != 0:
+        raise HarnessError("accumulate explorer failed: " + r.stderr[-400:])
+    base = shard["baseline"]
+    n = 0
+    for line in r.stdout.split("\n"):
+        if not line.strip():
+            continue
+        node = json.loads(line)
+        n += 1
+        if "error" in node:
+            raise HarnessError(f"accumulate node error {node}")
+        res.evaluations += 1
+        res.nontrivial += 1
+        res.count("accum_nodes")
+        hist = node["hist"]
+        if node["outcome"] != base[hist[-1]]:
+            res.fail({"clause": "history", "family": "accum", "history": [f"{hist[0]} x{node['k']}", hist[-1]], "full_history": hist,
+                      "expected": base[hist[-1]], "observed": node["outcome"], "size": len(hist)}, known)
+    if n == 0:
+        raise HarnessError("accumulate explorer produced no nodes")
+
+
 def run_shard(shard, tier, h, res, known):
+    if shard["kind"] == "accum":
+        return run_accum(shard, tier, h, res, known)
     if shard["kind"] == "tree":
         run_tree(shard, tier, h, res, known)
     else:
@@ -227,7 +259,8 @@ def coverage_extra(results, tier):
     for r in results:
         for k, v in r.counters.items():
             c[k] = c.get(k, 0) + v
-    return {"states": c.get("states", 0), "transitions": c.get("transitions", 0) + c.get("tree_nodes", 0),
+    return {"states": c.get("states", 0), "transitions": c.get("transitions", 0) + c.get("tree_nodes", 0) + c.get("accum_nodes", 0),
+            "accumulation_histories": c.get("accum_nodes", 0),
             "traces_validated_against_impl": c.get("traces_validated", 0),
             "bfs_transitions": c.get("transitions", 0), "stateless_histories": c.get("tree_nodes", 0),
             "bfs_max_depth": c.get("max_depth", 0), "exhaustive": not c.get("state_cap_hit", 0)}
@@ -243,9 +276,16 @@ def replay(case, h):
     _, history = _ops()
     wd = h.path("replay")
     history.prepare_workdir(wd)
-    hist = case["history"]
+    hist = case.get("full_history") or case["history"]
     r = subprocess.run([PY, HIST, "hist", wd, json.dumps(hist)], capture_output=True, text=True, env=_env())
     d = json.loads(r.stdout.strip().split("\n")[-1])
+    if case.get("clause") == "fork-conformance":
+        srv = Server(wd)
+        try:
+            f = srv.run(hist)
+        finally:
+            srv.close()
+        return (f["outcomes"], f["snapshots"]) != (d["outcomes"], d["snapshots"]), f"fork server: {f['outcomes']} fresh: {d['outcomes']}"
     wd2 = h.path("replay_base")
     history.prepare_workdir(wd2)
     b = json.loads(subprocess.run([PY, HIST, "one", wd2, hist[-1]], capture_output=True, text=True, env=_env()).stdout.strip().split("\n")[-1])
